@@ -691,7 +691,11 @@ func (w *adwire) honest(idx int) {
 	wire := ca.TakeOut()
 	// sender correspondence: the frames the message layer flushed, and under which crypto state
 	{
-		op := fmt.Sprintf("putmsg %s %s %s %s", b01(mode == modeEnc), b01(mode != modePlain), hexOrDash([]byte(myType)), hexOrDash([]byte(targetType)))
+		opName := "putmsg"
+		if sender == 3 {
+			opName = "putmsgb" // PutClassAdRawBytes: expressions through PutStringBytes (its own frame boundaries for ≥ one-frame expressions)
+		}
+		op := fmt.Sprintf("%s %s %s %s %s", opName, b01(mode == modeEnc), b01(mode != modePlain), hexOrDash([]byte(myType)), hexOrDash([]byte(targetType)))
 		for i, e := range sentExprs {
 			k := "p:"
 			if sender == 1 && isPrivName(lines[i].name) {
@@ -725,7 +729,7 @@ func (w *adwire) honest(idx int) {
 	ops = append(ops, senderOps...)
 	var real []string
 	for _, o := range senderOps {
-		if strings.HasPrefix(o, "putmsg") {
+		if strings.HasPrefix(o, "putmsg") { // (putmsg and putmsgb)
 			real = append(real, senderReal)
 		} else {
 			real = append(real, "")
